@@ -15,13 +15,16 @@ RULE = ('(a) handler level: documents from a grammar of Junos-style replies (pla
         'the attribute, unknown id, no listener, no message-id); each document is also fed to expat in 1- and 7-byte pieces. '
         '(b) whole path: streams of 1-2 pipelined replies (with/without filter, plain/nc:, white space between) under every '
         'single cut; thorough adds all double cuts within windows round start tags and delimiters, all double cuts of two short '
-        'streams, byte-wise feeding and random multi-cuts. A case is distinct by (document, filter, request kind) resp. '
+        'streams, byte-wise feeding and random multi-cuts; replies optionally begin with an XML declaration; (d) streams with one reply that is not '
+        'well-formed (expat rejects / the DOM parser cannot dispatch and stays). Every cut run is also replayed on the extracted driver model '
+        '(coq/Model/JunosParse.v) and compared after every read. A case is distinct by (document, filter, request kind) resp. '
         '(stream, filters, cuts); non-trivial = the request has a filter and the document has at least one kept and one '
         'dropped element, or the stream is cut.')
-ASSUMES = ['expat delivers the SAX events of the byte stream fed so far, independent of how it was fed, with raw qualified names',
+ASSUMES = ['expat delivers the SAX events of the byte stream fed so far, independent of how it was fed, with raw qualified names (pyexpat 2.5.0: no reparse deferral)',
+           'driver model: the octets the SAX handler writes never contain "]]>" (they are kept apart from the delimiter search); NETCONF 1.0 framing; the verdict of Session._dispatch_message on a DOM message (does parse_root find a root) and the per-octet events of expat are oracles supplied by the harness',
            'lxml Element.find(tag, namespaces) / getparent / builder.E behave as modelled (first child by Clark tag, SyntaxError on unknown prefix, ValueError on prefixed tag)',
            'the filter is given as a string (a fresh tree per reply); an Element filter object is mutated by the wrapper step',
-           'byte-level recovery (_delimiter_check, only reached for input that is not well-formed XML) is not modelled']
+           'byte-level recovery (_delimiter_check, only reached for input that is not well-formed XML) is not modelled: the driver model ends in an explicit Stuck state there and the comparison stops at that read']
 TRUSTED = ['modelled, not verified: expat, lxml, difflib; DefaultXMLParser._parse10 (C01) is used as is for the hand-over',
            'the rendering of the handler output to bytes (render) is tied to the code by the correspondence only; the projection theorem speaks about output events']
 ALLOWED_AXIOMS = []
@@ -256,13 +259,28 @@ def gen_stream(rng, n_replies=None, linked=False):
         if i == 0: r0 = r
         fls.append(f if rng.random() < (0.9 if linked else 0.6) else None)
     gaps = [rng.choice(['', '', '\n', '\n\n', ' ']) for _ in range(n)]
-    return dict(kind='path', docs=docs, filters=fls, gaps=gaps)
+    # some servers start every message with an XML declaration (after the white space that follows the delimiter)
+    decl = [rng.random() < 0.3 for _ in range(n)]
+    return dict(kind='path', docs=docs, filters=fls, gaps=gaps, decl=decl)
+
+XML_DECL = b'<?xml version="1.0" encoding="UTF-8"?>'
+def _doc_bytes(case, i):
+    H, G = _H()
+    d = _tup(case['docs'][i])
+    if case.get('corrupt') == i and case.get('corrupt_kind') == 'nons':
+        # nc:rpc-reply without a declaration of the prefix: expat (no namespace processing) accepts it, lxml does not
+        d = ('E', 'nc:rpc-reply', [a for a in d[2] if a[0] != 'xmlns:nc'], d[3])
+    b = G.ser(d).encode()
+    if case.get('corrupt') == i and case.get('corrupt_kind') != 'nons':
+        # an element that is never closed: not well-formed from the reply's end tag on
+        b = b.replace(b'</rpc-reply>', b'<oops></rpc-reply>').replace(b'</nc:rpc-reply>', b'<oops></nc:rpc-reply>')
+    return (XML_DECL if case.get('decl') and case['decl'][i] else b'') + b
 
 def stream_bytes(case):
     H, G = _H()
     s = b''
-    for d, g in zip(case['docs'], case['gaps']):
-        s += G.ser(_tup(d)).encode() + H.DELIM + g.encode()
+    for i, g in enumerate(case['gaps']):
+        s += _doc_bytes(case, i) + H.DELIM + g.encode()
     return s
 
 def path_expected(case):
@@ -313,6 +331,33 @@ def run_path(case, cuts):
         segs = H.cuts_to_segments(stream, cuts)
     return H.run_stream(segs, fstrs, use_filter=True)
 
+def run_path_obs(case, cuts):
+    """run_path with the per-read observations of harness/saxseg.py"""
+    H, G = _H()
+    from harness import saxseg as S
+    stream = stream_bytes(case)
+    fstrs = [None if f is None else G.filter_str(_ftup(f)) for f in case['filters']]
+    segs = [stream[i:i + 1] for i in range(len(stream))] if cuts == 'bytewise' else H.cuts_to_segments(stream, cuts)
+    return S.run_stream_obs(segs, fstrs, use_filter=True)
+
+def check_driver_model(ctx, case, stream, runs):
+    """JunosParse.run (extracted, instance JunosSax) vs the implementation, read by read, for the cut runs of one stream"""
+    if not ctx.model or not runs: return
+    H, G = _H()
+    from harness import saxseg as S
+    fstrs = [None if f is None else G.filter_str(_ftup(f)) for f in case['filters']]
+    world = S.world_for(stream, H.ids_for(len(case['docs'])), fstrs, env_val, events_val)
+    for k in range(0, len(runs), 400):
+        part = runs[k:k + 400]
+        mres = ctx.model.call([4, world, stream, [S.lens_of(stream, c) for c, _ in part]])
+        for (cuts, log), m in zip(part, mres):
+            bad = S.compare(m, log)
+            ctx.hist('driver_model', 'outside the model (expat rejects)' if any(r[0] == 3 for r in m[0]) else 'compared')
+            if bad:
+                ctx.disagree(dict(case, cuts=cuts if cuts == 'bytewise' else list(cuts)), repr(bad[1])[:600], repr(bad[2])[:600],
+                             'JunosParse.run vs JunosXMLParser.parse: ' + bad[0], theorem='C18_segmentation_independent')
+                return
+
 def path_sig(case, cuts):
     """Signature of a whole-path failure: if the same failure shows without any cut it is a handler-level class,
     otherwise it depends on the segmentation and no open finding covers it."""
@@ -332,9 +377,9 @@ def interesting_positions(case):
     """offsets of the start-tag ends and of the delimiters in the stream"""
     H, G = _H()
     pos, off = [], 0
-    for d, g in zip(case['docs'], case['gaps']):
-        b = G.ser(_tup(d)).encode()
-        pos.append((off, off + b.index(b'>') + 1))          # reply start tag
+    for i, g in enumerate(case['gaps']):
+        b = _doc_bytes(case, i)
+        pos.append((off, off + b.index(b'>', b.index(b'<rpc-reply' if b'<rpc-reply' in b else b'<nc:rpc-reply')) + 1))          # reply start tag
         pos.append((off + len(b) - 14, off + len(b) + 6 + len(g)))   # end tag .. delimiter
         off += len(b) + 6 + len(g)
     return pos
@@ -344,19 +389,44 @@ def check_path_case(ctx, case, cutsets):
     ctx.hist('path_replies', len(case['docs'])); ctx.hist('path_filters', ''.join('F' if f is not None else '-' for f in case['filters']))
     ctx.hist('path_stream_len', len(stream) // 50 * 50)
     n = 0
+    runs = []
     for cuts in cutsets:
-        res = run_path(case, cuts)
+        res, log = run_path_obs(case, cuts)
+        runs.append((cuts, log))
         n += 1
         v = path_verdict(exp, res)
         if v:
             c = dict(case, cuts=cuts if cuts == 'bytewise' else list(cuts))
             ctx.fail(c, v[1] + ' [cuts %s]' % (cuts,), sig=path_sig(case, cuts), expected=v[2], actual=v[3])
             if len(ctx.failures) > 20: break
+    check_driver_model(ctx, case, stream, runs)
     ctx.evaluations += n
     ctx.traces += n
     ctx.count(dict(stream=stream.hex(), filters=case['filters']), nontrivial=True)
     ctx.evaluations -= 1
     ctx.hist('path_runs', 'cut runs', n)
+
+def check_malformed_case(ctx, case, cutsets):
+    """A stream with one reply that is not well-formed.  Request without filter: the DOM parser cannot dispatch it and
+    stays; what every request gets must still not depend on the cuts (oracle: equal to the uncut run), and the driver model
+    follows read by read.  Request with filter: expat rejects, _delimiter_check takes over: outside the model (the model
+    says so: Stuck), compared up to that read only."""
+    stream = stream_bytes(case)
+    filtered = case['filters'][case['corrupt']] is not None
+    runs, base = [], None
+    for cuts in cutsets:
+        res, log = run_path_obs(case, cuts)
+        runs.append((cuts, log))
+        if base is None: base = res
+        elif not filtered and res != base:
+            ctx.fail(dict(case, cuts=list(cuts)), 'stream with a malformed reply to a request without filter: results depend on the cuts %s' % (cuts,),
+                     sig=None, expected=[list(r)[:1] for r in base], actual=[list(r)[:1] for r in res])
+            break
+    check_driver_model(ctx, case, stream, runs)
+    ctx.evaluations += len(runs); ctx.traces += len(runs)
+    ctx.hist('path_malformed', 'expat rejects (filter)' if filtered else
+             ('DOM message without a root lxml accepts (no filter): the DOM parser stays' if case.get('corrupt_kind') == 'nons'
+              else 'DOM message not well-formed after its start tag (no filter)'), len(runs))
 
 def load_corpus():
     out = []
@@ -382,7 +452,7 @@ def run(ctx):
     check_handler_cases(ctx, cases)
     check_spec_cases(ctx, cases)
     # (b) whole path
-    ns = 120 if thorough else 30
+    ns = 80 if thorough else 30
     for k in range(ns):
         case = gen_stream(rng, n_replies=(1 if k % 3 else 2))
         L = len(stream_bytes(case))
@@ -406,12 +476,20 @@ def run(ctx):
         L = len(stream_bytes(case))
         check_path_case(ctx, case, [[]] + [sorted(rng.sample(range(1, L), min(L - 1, 3))) for _ in range(2)])
         ctx.hist('path_linked', 'histories')
+    # (d) one reply of the stream is not well-formed
+    for k in range(24 if thorough else 10):
+        case = gen_stream(rng, n_replies=2 + k % 2)
+        case['corrupt'] = k % len(case['docs'])
+        if k % 2 == 0: case['filters'][case['corrupt']] = None
+        if k % 4 == 0: case['corrupt_kind'] = 'nons'
+        L = len(stream_bytes(case))
+        check_malformed_case(ctx, case, [[]] + [[c] for c in range(1, L, 1 if thorough else 3)])
     if thorough:
         # all double cuts of two short streams (two adjacent replies, filter/no filter)
         for k in range(2):
             for _try in range(200):
                 case = gen_stream(rng, n_replies=2)
-                if len(stream_bytes(case)) < 300 and (case['filters'][0] is None) != (case['filters'][1] is None): break
+                if len(stream_bytes(case)) < 270 and (case['filters'][0] is None) != (case['filters'][1] is None): break
             L = len(stream_bytes(case))
             check_path_case(ctx, case, [list(p) for p in itertools.combinations(range(1, L), 2)])
         ctx.exhaustive = False
